@@ -7,6 +7,7 @@ CONSTANTS
   ReadMode = "full"
   Wiring = "tee_below_bufio"
   Progs <- MCProgs
+  Deliv <- AnyDeliv
 VIEW View
 INVARIANTS TypeOK ReplayComplete FailJustified SuccessExact ReadAheadBounded
 PROPERTY Terminates
